@@ -83,12 +83,21 @@ def facts_path(repo="/repo", features="", verbose=False):
         if os.path.exists(out) and os.path.getsize(out) > 1000:
             return out, sha, True, time.time() - t0
         # keep the cache small: drop older fact files of this configuration
-        old = sorted(glob.glob(os.path.join(facts_dir, "%s-*.json" % fname)), key=os.path.getmtime)
-        for p in old[:-3]:
-            try:
-                os.unlink(p)
-            except OSError:
-                pass
+        if is_repo:
+            old = sorted(glob.glob(os.path.join(facts_dir, "%s-*.json" % fname)), key=os.path.getmtime)
+            for p in old[:-3]:
+                try:
+                    os.unlink(p)
+                except OSError:
+                    pass
+        else:
+            # scratch copies are analysed by concurrent processes: never delete a fresh file of another worker
+            for p in glob.glob(os.path.join(facts_dir, "*.json")):
+                try:
+                    if time.time() - os.path.getmtime(p) > 1800:
+                        os.unlink(p)
+                except OSError:
+                    pass
         target = os.path.join(CACHE, "target-%s-%s" % (tkey, fname))
         if not os.path.isdir(target):
             # warm start: registry dependencies' metadata is identical whatever the member's path
